@@ -52,6 +52,11 @@ struct TableUtf8 {
   nop::Entry<int, 0> a;
   NOP_TABLE_NS("caf\xc3\xa9.\xe8\xa1\xa8", TableUtf8, a);
 };
+// a name with an embedded NUL (e.g. a versioned name built from pieces): every byte of the literal counts
+struct TableNul {
+  nop::Entry<int, 0> a;
+  NOP_TABLE_NS("vt.T\0v2", TableNul, a);
+};
 
 template <std::size_t N>
 void name_lemma(const char (&name)[N], std::uint64_t compile_time_hash) {
@@ -108,6 +113,10 @@ VT_HARNESS(h_sip_readblock_char) { vt::readblock_lemma<char>(); }
 VT_HARNESS(h_sip_name_ascii) {
   const char name[] = "io.github.eieio.vt.TableAscii";
   vt::name_lemma(name, nop::EntryListTraits<vt::TableAscii>::EntryList::Hash);
+}
+VT_HARNESS(h_sip_name_nul) {
+  const char name[] = "vt.T\0v2";
+  vt::name_lemma(name, nop::EntryListTraits<vt::TableNul>::EntryList::Hash);
 }
 VT_HARNESS(h_sip_name_utf8) {
   const char name[] = "caf\xc3\xa9.\xe8\xa1\xa8";
